@@ -7,6 +7,7 @@ its factors by index with a stable sort, and factors with equal index only ever 
 different pads, whose relative order is fixed by the code).  Import-free.
 -/
 import OFV.Model.Symbolic
+import OFV.Model.C04
 
 namespace OFV
 namespace Model
@@ -107,6 +108,10 @@ def bkMajTerm (n : Nat) (t : MTerm) (c : GQ) : Op :=
 
 def bkMajorana (n : Nat) (A : MOp) : Op :=
   A.foldl (fun acc (t, c) => iadd tol acc (bkMajTerm n t c)) []
+
+/-- the exact regime of `bravyi_kitaev(FermionOperator)` (see `Model.C04.sumOk`): every `+=` of
+`inline_sum` deleted only exact zeros; evaluated by the driver on every generated input -/
+def bkFermionOk (n : Nat) (A : Op) : Bool := C04.sumOk tol (A.map fun tc => bkTerm tol n tc.1 tc.2)
 
 /-! ### `fenwick_tree.py`: parent pointers and children lists built by the recursion -/
 
